@@ -26,10 +26,11 @@ import (
 )
 
 type C13Step struct {
-	DtMs   int64  `json:"dt_ms"`
-	Toggle bool   `json:"toggle,omitempty"`   // flip the enable flag before this block's EndBlock (stands for a passed param change)
-	Coef   string `json:"coef,omitempty"`     // new reward coefficient (percent, 18 decimals) set before this block
-	Bond   string `json:"bond_add,omitempty"` // coins added to the bonded pool before this block
+	DtMs    int64  `json:"dt_ms"`
+	Toggle  bool   `json:"toggle,omitempty"`   // flip the enable flag before this block's EndBlock (stands for a passed param change)
+	Coef    string `json:"coef,omitempty"`     // new reward coefficient (percent, 18 decimals) set before this block
+	Bond    string `json:"bond_add,omitempty"` // coins added to the bonded pool before this block
+	CapSnap *int64 `json:"cap_snap,omitempty"` // before this block: max supply := supply + floor(this block's formula amount) + CapSnap
 }
 
 type C13Case struct {
@@ -99,6 +100,10 @@ func genC13(t *rapid.T) C13Case {
 		}
 		if rapid.IntRange(0, 5).Draw(t, "newbond") == 0 {
 			s.Bond = rapid.SampledFrom(c13Bonds).Draw(t, "bond-v")
+		}
+		if rapid.IntRange(0, 5).Draw(t, "capsnap") == 0 {
+			v := rapid.SampledFrom([]int64{0, 0, 1, -1, 2}).Draw(t, "capsnap-v")
+			s.CapSnap = &v
 		}
 		c.Steps = append(c.Steps, s)
 	}
@@ -222,6 +227,13 @@ func runC13(st *ev.Stats, c C13Case) string {
 				bondedRaw := new(big.Int).Mul(bonded, ten18)
 				frac := fpQuo(new(big.Int).Mul(big.NewInt(elapsed), ten18), new(big.Int).Mul(big.NewInt(yearMs(now)), ten18))
 				mintRaw := fpMul(fpMul(bondedRaw, rc), frac)
+				if s.CapSnap != nil {
+					// put the cap exactly at (or one unit around) the integer part of this block's formula amount
+					capV = new(big.Int).Add(sup0, new(big.Int).Quo(mintRaw, ten18))
+					capV.Add(capV, big.NewInt(*s.CapSnap))
+					k.SetMaxSupply(ctx, sdk.NewCoin(chain.Denom, sdkmath.NewIntFromBigInt(capV)))
+					st.Class("cap-snapped-to-mint")
+				}
 				// cap test on the unrounded amount
 				room := new(big.Int).Sub(capV, sup0)
 				roomRaw := new(big.Int).Mul(room, ten18)
